@@ -129,6 +129,19 @@ void *cuser_malloc(int_t bytes, int_t which_end)
 	    buf = (char*) stack.array + stack.top1;
 	    stack.top1 += bytes;
         } else {
+	    /* A block at the tail end is put on a double-word boundary HERE,
+	       inside the critical section.  pcgstrf_WorkInit used to shift its
+	       real array down afterwards, in a second critical section: a
+	       block handed to another thread in between overlapped the
+	       shifted array, and the shift was not tested against the room
+	       left. */
+	    int_t extra = (int_t) ( (long long int)
+			((char*) stack.array + stack.top2 - bytes) & 7 );
+	    if ( StackFull(bytes + extra) ) {
+		buf = NULL;
+		goto end;
+	    }
+	    bytes += extra;
 	    stack.top2 -= bytes;
 	    buf = (char*) stack.array + stack.top2;
         }
